@@ -20,13 +20,24 @@ def elemKey (F : TFacts) (j : J) : Option Iri :=
   | .iri u => some u
   | .other _ => none
 
+mutual
 /-- no bto/bcc on a typed value nor, recursively, on the typed values of its `object` member -/
-partial def noHiddenDeep (F : TFacts) (v : J) : Bool :=
-  if !F.known (typeName v) then true else
-  !(has F v "bto" && v.has "bto") && !(has F v "bcc" && v.has "bcc") &&
-  (match prop F v "object" with
-   | none => true
-   | some xs => xs.all fun j => match elemOf F j with | .emb o => noHiddenDeep F o | _ => true)
+def noHiddenDeep (F : TFacts) : J → Bool
+  | .obj kvs => if F.known (typeName (.obj kvs)) then noHiddenKvs F (typeName (.obj kvs)) kvs else true
+  | _ => true
+def noHiddenKvs (F : TFacts) (tn : String) : List (String × J) → Bool
+  | [] => true
+  | (k, v) :: rest =>
+    !((k == "bto" && F.hasProp tn "bto") || (k == "bcc" && F.hasProp tn "bcc")) &&
+    (if k == "object" && F.hasProp tn "object" then noHiddenObjVal F v else true) && noHiddenKvs F tn rest
+def noHiddenObjVal (F : TFacts) : J → Bool
+  | .arr xs => noHiddenList F xs
+  | .obj kvs => noHiddenDeep F (.obj kvs)
+  | _ => true
+def noHiddenList (F : TFacts) : List J → Bool
+  | [] => true
+  | x :: xs => noHiddenDeep F x && noHiddenList F xs
+end
 
 /-- no bto/bcc on the value nor on the typed values directly embedded in `object` (delivery payloads) -/
 def noHidden1 (F : TFacts) (v : J) : Bool :=
